@@ -479,8 +479,6 @@ def replay(doc):
     base = base_history()
     twin = sequential_twin(cfg, base, parts)
     oracle = make_oracle(parts, twin)
-    e, choices, points = engine_s.run_schedule(cfg, base, parts, doc["choices"], track=track)
-    try:
-        return oracle(e)
-    finally:
-        e.close()
+    e, choices, points, res = engine_s.evaluate(cfg, base, parts, doc["choices"], oracle, track)
+    e.close()
+    return res
